@@ -856,6 +856,12 @@ func (it *Interp) where() string {
 func (it *Interp) binop(op token.Token, a, b Value, opndT, resT types.Type) Value {
 	it.checkPoison(a)
 	it.checkPoison(b)
+	if bl, ok := a.(BitLenV); ok {
+		return cmpBitLen(op, bl, asBig(b), false)
+	}
+	if bl, ok := b.(BitLenV); ok {
+		return cmpBitLen(op, bl, asBig(a), true)
+	}
 	bt := basicOf(opndT)
 	if bt != nil && bt.Info()&types.IsInteger != 0 {
 		switch op {
